@@ -120,7 +120,9 @@ def _run_tables(ctx):
             if n == "kind" and "io::Error" in inst:
                 return "kind"
             if n in ("eq", "ne") and "ErrorKind" in inst:
-                o = prim.origin_of_operand(ex, t.args[1]).strip()
+                o = prim.resolve_promoted(ex, prim.origin_of_operand(ex, t.args[1])).strip()
+                if o.k != "agg":
+                    o = prim.resolve_promoted(ex, prim.origin_of_operand(ex, t.args[0])).strip()
                 return "kind_%s_%s" % (n, str(o.a).split("::")[-1] if o.k == "agg" else "?")
             if n in ("spawn", "output", "exec", "wait", "try_wait", "wait_with_output") and ("process::" in inst):
                 return "other_run:" + n
@@ -133,6 +135,9 @@ def _run_tables(ctx):
             if o.k == "bin" and o.a in ("Eq", "Ne") and any(isinstance(c.get("v"), int) and c.get("k") == "int" for c in o.consts()) and any(cc.endswith("ExitStatus::code") for cc in o.callees()):
                 v = [c.get("v") for c in o.consts() if c.get("k") == "int"][0]
                 return "code_%s_%s" % (o.a, v)
+            # `match status.code() { Some(255) => .., Some(_) => .., None => .. }`: the payload switched on directly
+            if f.blocks[bb].term.j.get("discr_ty") in ("i32", "i64", "u8", "u16", "u32") and any(cc.endswith("ExitStatus::code") for cc in o.callees()) and any(x.k == "variant" and str(x.a) == "Some" for x in o.walk()):
+                return "codeval"
             return None
         g = prim.event_graph(ex, role, branch_role=brole)
         gg = C.G(g)
@@ -157,6 +162,7 @@ def _run_tables(ctx):
                 # Option discriminants: 1 = Some, else/0 = None
                 asg["code"] = (lambda l, v=code_some: (l.split(",")[0] == "1") == v)
                 asg["signal"] = (lambda l, v=sig_some: (l.split(",")[0] == "1") == v)
+                asg["codeval"] = (lambda l, v=is255: (l.split(",")[0] == "255") == v)
                 tr = C.simulate(g, asg, edges=sub)
                 got = tr[-1] if tr else None
                 n_rows += 1
